@@ -415,4 +415,38 @@ def _error_code_of(p):
     return None
 
 
-RULES = [('C13.a', rule_a), ('C13.b', rule_b), ('C13.c', rule_c), ('C13.d', rule_d)]
+def rule_e(ctx):
+    """A request reusing a live id can be rejected only if it reaches its handle_* method: new requests are routed to
+    the dispatch table and never offered to the stream table first (shared C01.e routing).  The stream table never
+    holds the connection stream id (so a frame on stream 0 can never be swallowed by a stream handler)."""
+    from . import dispatch
+    dispatch.rule_routing(ctx, 'C13.d', only=['RequestResponseFrame', 'RequestStreamFrame', 'RequestChannelFrame',
+                                              'RequestFireAndForgetFrame', 'PayloadFrame'])
+    rep = ctx.report
+    sc = ctx.slots.StreamControl
+    f = sc.lookup('register_stream')
+    if f is None:
+        raise AnalysisError('C13.e: StreamControl.register_stream vanished')
+    sid = ('param', f.qualname, f.params()[1])
+    ok = True
+    n = 0
+    why = ''
+    for p in ctx.paths(f, sc):
+        stores = [e for e in p.events if e.kind == 'store' and e.data['target'][0] == 'item' and
+                  strip_epoch(e.data['target'][1]) == ('attr', ('self',), ctx.slots.stream_table_attr)]
+        if not stores:
+            continue
+        n += 1
+        if strip_epoch(stores[0].data['target'][2]) != sid:
+            ok, why = False, 'the handler is stored under %s, not the id passed in' % fmt_term(
+                stores[0].data['target'][2])
+        zero = [c for c in p.events if c.kind == 'cond' and c.seq < stores[0].seq and c.data['key'][0] == 'eq' and
+                sid in [strip_epoch(x) for x in c.data['key'][1:3]] and
+                ('const', 0) in [strip_epoch(x) for x in c.data['key'][1:3]]]
+        if not zero or zero[-1].data['value'] is not False:
+            ok, why = False, 'a handler can be registered under stream id 0'
+    rep.add('C13.e', 'StreamControl.register_stream / never under the connection stream id', f, ok and n > 0,
+            why or 'the table is written only after stream_id == 0 was refused (%d paths)' % n)
+
+
+RULES = [('C13.a', rule_a), ('C13.b', rule_b), ('C13.c', rule_c), ('C13.d', rule_d), ('C13.d+C13.e', rule_e)]
